@@ -122,7 +122,7 @@ let () =
         let t = term_of [] (parse sxs) in
         let evs = sigs t in
         let r = match mode with
-          | "run" -> str_evs evs
+          | "run" | "rd" -> str_evs evs
           | "sw" -> (match sync_wait evs with
               | SwRet vs -> "ret:" ^ str_vals vs
               | SwThrow e -> "throw:" ^ string_of_int (int_of_n e)
